@@ -38,6 +38,11 @@ def _digests_main(argv):
     from sim import campaign
 
     repo = os.environ.get("VERIF_REPO") or "/repo"
+    root = scratch_root()
+    os.environ["VERIF_SCRATCH_ROOT"] = root
+    import atexit
+
+    atexit.register(shutil.rmtree, root, True)
     jobs_list = [
         dict(repo=repo, prop=prop, sub=sub, base_seed=seed, chunk=c, runs=campaign.RUNS_PER_CHUNK, known_keys=[], recheck=0,
              sweep=(sub == "sweep"), max_records=9 if sub == "sweep" else 24, collect_digests=True)
